@@ -9,10 +9,97 @@ makes it return.
 -/
 namespace Tally.RootClose
 
+/-! ## the cells a pass has still to visit -/
+
+theorem countP_lt_of_witness {α : Type} (p q : α → Bool) (l : List α) (himp : ∀ x, p x = true → q x = true)
+    (a : α) (ha : a ∈ l) (hq : q a = true) (hp : p a = false) : l.countP p < l.countP q := by
+  induction l with
+  | nil => cases ha
+  | cons x l ih =>
+    have hle : l.countP p ≤ l.countP q := List.countP_mono_left (fun x _ => himp x)
+    simp only [List.countP_cons]
+    rcases List.mem_cons.mp ha with rfl | hm
+    · simp only [hq, hp, if_true]; simp; omega
+    · have := ih hm
+      cases hpx : p x with
+      | true => simp only [himp x hpx, if_true]; omega
+      | false => cases hqx : q x <;> simp <;> omega
+
+/-- how many of the cells `0 … K-1` are not in `vis` -/
+def unvisited (K : Nat) (vis : List Nat) : Nat := (List.range K).countP (fun i => !vis.contains i)
+
+theorem unvisited_le (K : Nat) (vis : List Nat) : unvisited K vis ≤ K := by
+  have := List.countP_le_length (p := fun i => !vis.contains i) (l := List.range K)
+  simpa [unvisited] using this
+
+theorem unvisited_cons_lt (K : Nat) (vis : List Nat) (c : Nat) (hc : c < K) (hv : c ∉ vis) :
+    unvisited K (c :: vis) < unvisited K vis := by
+  apply countP_lt_of_witness _ _ _ _ c (List.mem_range.mpr hc)
+  · simp [hv]
+  · simp
+  · intro x hx
+    simp only [List.contains_eq_mem, List.mem_cons, Bool.not_eq_true', decide_eq_false_iff_not, not_or] at hx ⊢
+    exact hx.2
+
+/-- a choice that is always possible at `pick vis`: the first unvisited cell, `K` when there is none -/
+def nextChoice (K : Nat) (vis : List Nat) : Nat :=
+  match (List.range K).find? (fun i => !vis.contains i) with
+  | some c => c
+  | none => K
+
+theorem nextChoice_spec (K : Nat) (vis : List Nat) :
+    (nextChoice K vis < K ∧ nextChoice K vis ∉ vis) ∨ (nextChoice K vis = K ∧ ∀ j, j < K → j ∈ vis) := by
+  unfold nextChoice
+  split
+  · next c hc =>
+    left
+    have h1 := List.mem_of_find?_eq_some hc
+    have h2 := List.find?_some hc
+    exact ⟨List.mem_range.mp h1, by simpa using h2⟩
+  · next hn =>
+    right
+    refine ⟨rfl, fun j hj => ?_⟩
+    have := List.find?_eq_none.mp hn j (List.mem_range.mpr hj)
+    simpa using this
+
+/-- every cell not yet visited may be visited next … -/
+theorem passStep_pick_cell (s : State) (vis : List Nat) (c : Nat) (hc : c < s.cells.length) (hv : c ∉ vis) :
+    ∃ s1 q, passStep s c (.pick vis) = some (s1, some q) := by
+  simp only [passStep, hc, hv, if_true, if_false]
+  split
+  · exact ⟨_, _, rfl⟩
+  · exact ⟨_, _, rfl⟩
+
+/-- … and once all are visited the range loops can end -/
+theorem passStep_pick_over (s : State) (vis : List Nat) (c : Nat) (hc : s.cells.length ≤ c)
+    (hall : ∀ j, j < s.cells.length → j ∈ vis) : passStep s c (.pick vis) = some (s, some .flush) :=
+  passStep_of_rel (.over vis hc hall)
+
+/-- at every pc of a pass some choice is enabled (at a `pick`: an unvisited cell, or `K` when all are visited) -/
+theorem passStep_enabled (s : State) (p : PassPc) : ∃ c s1 oq, passStep s c p = some (s1, oq) := by
+  cases p with
+  | begin => exact ⟨0, _, _, rfl⟩
+  | deliver i pend vis => exact ⟨0, _, _, rfl⟩
+  | flush => exact ⟨0, _, _, rfl⟩
+  | pick vis =>
+    rcases nextChoice_spec s.cells.length vis with ⟨h1, h2⟩ | ⟨h1, h2⟩
+    · obtain ⟨s1, q, h⟩ := passStep_pick_cell s vis _ h1 h2
+      exact ⟨_, _, _, h⟩
+    · exact ⟨_, _, _, passStep_pick_over s vis (nextChoice s.cells.length vis) (Nat.le_of_eq h1.symm) h2⟩
+
+/-- at a pc other than `pick` the choice does not matter -/
+theorem passStep_choice_irrelevant (s : State) (p : PassPc) (hp : ∀ vis, p ≠ .pick vis) (c c' : Nat) :
+    passStep s c p = passStep s c' p := by
+  cases p with
+  | pick vis => exact absurd rfl (hp vis)
+  | _ => rfl
+
+/-! ## the variant -/
+
 def passM (K : Nat) : PassPc → Nat
   | .flush => 0
-  | .swap i => 1 + 2 * (K - i)
-  | .deliver i _ => 2 + 2 * (K - (i + 1))
+  | .pick vis => 1 + 2 * unvisited K vis
+  | .deliver _ _ vis => 2 + 2 * unvisited K vis
   | .begin => 2 + 2 * K
 
 def loopM (K : Nat) : LoopPc → Nat
@@ -30,26 +117,14 @@ def closerM (K : Nat) : CPc → Nat
   | .won => 7 + 2 * K
   | _ => 0
 
-theorem passStep_measure (s : State) (p q : PassPc) (h : (passStep s p).2 = some q) :
-    passM s.cells.length q < passM s.cells.length p := by
-  cases p with
-  | begin => simp only [passStep, Option.some.injEq] at h; subst h; simp [passM]
-  | swap i =>
-    simp only [passStep] at h
-    split at h
-    · simp only [Option.some.injEq] at h; subst h; simp only [passM]; omega
-    · next hi =>
-      have hlt : i < s.cells.length := by
-        apply Classical.byContradiction; intro hn
-        rw [List.getElem?_eq_none (by omega)] at hi; cases hi
-      simp only [Option.some.injEq] at h; subst h; simp only [passM]; omega
-    · next hi =>
-      have hlt : i < s.cells.length := by
-        apply Classical.byContradiction; intro hn
-        rw [List.getElem?_eq_none (by omega)] at hi; cases hi
-      simp only [Option.some.injEq] at h; subst h; simp only [passM]; omega
-  | deliver i pend => simp only [passStep, Option.some.injEq] at h; subst h; simp only [passM]; omega
-  | flush => simp [passStep] at h
+theorem passStep_measure {s : State} {ch : Nat} {p : PassPc} {s1 : State} {q : PassPc}
+    (h : passStep s ch p = some (s1, some q)) : passM s.cells.length q < passM s.cells.length p := by
+  cases passStep_rel h with
+  | begin => have := unvisited_le s.cells.length []; simp only [passM]; omega
+  | take vis x r hc hv hx => have := unvisited_cons_lt _ vis ch hc hv; simp only [passM]; omega
+  | skip vis hc hv hx => have := unvisited_cons_lt _ vis ch hc hv; simp only [passM]; omega
+  | over vis hc hall => simp only [passM]; omega
+  | deliver i pend vis => simp only [passM]; omega
 
 /-- the variant: what the winner `w` and the loop still have to do -/
 def variant (s : State) (w : Nat) : Nat := closerM s.cells.length (s.closers w) + loopM s.cells.length s.loop
@@ -64,43 +139,37 @@ theorem progress (s : State) (h : Ctl s) (w : Nat) (hmid : (s.closers w).midCall
   | returned r => rw [hp] at hmid; simp [CPc.midCall] at hmid
   | returnedNil => rw [hp] at hmid; simp [CPc.midCall] at hmid
   | won =>
-    refine ⟨.closer w, { setC s w .doneClosedPc with doneClosed := true }, by simp only [step, hp], rfl, ?_,
+    refine ⟨.closer w 0, { setC s w .doneClosedPc with doneClosed := true }, by simp only [step, hp], rfl, ?_,
       Or.inl ?_⟩
     · simp [variant, setC, hp, closerM]
     · simp [setC, CPc.midCall]
   | purgePc =>
-    refine ⟨.closer w, setC (purgeAll s) w .reporterClose, by simp only [step, hp], by simp [setC, purgeAll], ?_,
+    refine ⟨.closer w 0, setC (purgeAll s) w .reporterClose, by simp only [step, hp], by simp [setC, purgeAll], ?_,
       Or.inl ?_⟩
     · simp [variant, setC, purgeAll, hp, closerM]
     · simp [setC, CPc.midCall]
   | reporterClose =>
     by_cases hcl : s.closable = true
-    · refine ⟨.closer w, { setC s w (.returned s.err) with log := .reporterClose :: s.log, returns := (w, s.err) :: s.returns },
+    · refine ⟨.closer w 0, { setC s w (.returned s.err) with log := .reporterClose :: s.log, returns := (w, s.err) :: s.returns },
         by simp [step, hp, hcl], rfl, ?_, Or.inr ⟨s.err, ?_⟩⟩
       · simp [variant, setC, hp, closerM]
       · simp [setC]
-    · refine ⟨.closer w, { setC s w (.returned none) with returns := (w, none) :: s.returns },
+    · refine ⟨.closer w 0, { setC s w (.returned none) with returns := (w, none) :: s.returns },
         by simp [step, hp, hcl], rfl, ?_, Or.inr ⟨none, ?_⟩⟩
       · simp [variant, setC, hp, closerM]
       · simp [setC]
   | pass p =>
-    have hlen := passStep_length s p
-    obtain ⟨c, l, hf⟩ := passStep_frame s p
-    have hloop : (passStep s p).1.loop = s.loop := by rw [hf]
-    cases hq : (passStep s p).2 with
+    obtain ⟨ch, s1, oq, hq⟩ := passStep_enabled s p
+    have hlen := passStep_length hq
+    have hloop : s1.loop = s.loop := by obtain ⟨c, l, rfl⟩ := passStep_frame hq; rfl
+    cases oq with
     | none =>
-      refine ⟨.closer w, setC (passStep s p).1 w .purgePc, ?_, hlen, ?_, Or.inl ?_⟩
-      · simp only [step, hp]
-        have : passStep s p = ((passStep s p).1, none) := by rw [← hq]
-        rw [this]
+      refine ⟨.closer w ch, setC s1 w .purgePc, by simp only [step, hp, hq], hlen, ?_, Or.inl ?_⟩
       · simp only [variant, setC, hp, closerM, if_true, hlen, hloop]; omega
       · simp [setC, CPc.midCall]
     | some q =>
-      have hm := passStep_measure s p q hq
-      refine ⟨.closer w, setC (passStep s p).1 w (.pass q), ?_, hlen, ?_, Or.inl ?_⟩
-      · simp only [step, hp]
-        have : passStep s p = ((passStep s p).1, some q) := by rw [← hq]
-        rw [this]
+      have hm := passStep_measure hq
+      refine ⟨.closer w ch, setC s1 w (.pass q), by simp only [step, hp, hq], hlen, ?_, Or.inl ?_⟩
       · simp only [variant, setC, hp, closerM, if_true, hlen, hloop]; omega
       · simp [setC, CPc.midCall]
   | doneClosedPc =>
@@ -109,7 +178,7 @@ theorem progress (s : State) (h : Ctl s) (w : Nat) (hmid : (s.closers w).midCall
     have hclosed : s.closed = true := by rw [h.closed_iff, hw]; rfl
     cases hl : s.loop with
     | exited =>
-      refine ⟨.closer w, setC s w (.pass .begin), by simp [step, hp, hl], rfl, ?_, Or.inl ?_⟩
+      refine ⟨.closer w 0, setC s w (.pass .begin), by simp [step, hp, hl], rfl, ?_, Or.inl ?_⟩
       · simp [variant, setC, hp, closerM, passM] <;> omega
       · simp [setC, CPc.midCall]
     | waiting =>
@@ -117,27 +186,21 @@ theorem progress (s : State) (h : Ctl s) (w : Nat) (hmid : (s.closers w).midCall
       · simp [variant, hl, loopM]
       · simp [hp, CPc.midCall]
     | ticked =>
-      refine ⟨.loop, { s with loop := .waiting }, by simp [step, hl, hclosed], rfl, ?_, Or.inl ?_⟩
+      refine ⟨.loop 0, { s with loop := .waiting }, by simp [step, hl, hclosed], rfl, ?_, Or.inl ?_⟩
       · simp [variant, hl, loopM] <;> omega
       · simp [hp, CPc.midCall]
     | pass p =>
-      have hlen := passStep_length s p
-      obtain ⟨c, l, hf⟩ := passStep_frame s p
-      have hcl : (passStep s p).1.closers = s.closers := by rw [hf]
-      cases hq : (passStep s p).2 with
+      obtain ⟨ch, s1, oq, hq⟩ := passStep_enabled s p
+      have hlen := passStep_length hq
+      have hcl : s1.closers = s.closers := by obtain ⟨c, l, rfl⟩ := passStep_frame hq; rfl
+      cases oq with
       | none =>
-        refine ⟨.loop, { (passStep s p).1 with loop := .waiting }, ?_, hlen, ?_, Or.inl ?_⟩
-        · simp only [step, hl]
-          have : passStep s p = ((passStep s p).1, none) := by rw [← hq]
-          rw [this]
+        refine ⟨.loop ch, { s1 with loop := .waiting }, by simp only [step, hl, hq], hlen, ?_, Or.inl ?_⟩
         · simp only [variant, hl, loopM, hlen, hcl]; omega
         · simp [hcl, hp, CPc.midCall]
       | some q =>
-        have hm := passStep_measure s p q hq
-        refine ⟨.loop, { (passStep s p).1 with loop := .pass q }, ?_, hlen, ?_, Or.inl ?_⟩
-        · simp only [step, hl]
-          have : passStep s p = ((passStep s p).1, some q) := by rw [← hq]
-          rw [this]
+        have hm := passStep_measure hq
+        refine ⟨.loop ch, { s1 with loop := .pass q }, by simp only [step, hl, hq], hlen, ?_, Or.inl ?_⟩
         · simp only [variant, hl, loopM, hlen, hcl]; omega
         · simp [hcl, hp, CPc.midCall]
 
